@@ -188,26 +188,26 @@ def fillTime (A Q : α) : α :=
   pi * Num.npow b 2 * h / Q
 
 /-- what `particles_state_space` reads of a `Particle` object -/
-structure Part (α : Type) where
+structure Prt (α : Type) where
   m : List α
   nb0 : α
   cp : α
   T : α
 
 /-- l.876-879: `nbe[i] = particles[i].nb0 * dt` -/
-def nbe (dt : α) (ps : List (Part α)) : List α := ps.map (·.nb0 * dt)
+def nbe (dt : α) (ps : List (Prt α)) : List α := ps.map (·.nb0 * dt)
 
 /-- one particle's block of `particles_state_space` (l.1609-1619) -/
-def block (p : Part α) (nb : α) : List α :=
+def block (p : Prt α) (nb : α) : List α :=
   p.m.map (· * nb) ++ [Num.sum p.m * nb * p.cp * p.T, 0.0, 0.0, 0.0, 0.0]
 
 /-- `dispersed_phases.particles_state_space(particles, nb)` -/
-def stateSpace : List (Part α) → List α → List α
+def stateSpace : List (Prt α) → List α → List α
   | p :: ps, nb :: nbs => block p nb ++ stateSpace ps nbs
   | _, _ => []
 
 /-- the dispersed-phase section of the first row built by `lmp.bent_plume_ic` (l.893) -/
-def firstRow (A Q : α) (ps : List (Part α)) : List α :=
+def firstRow (A Q : α) (ps : List (Prt α)) : List α :=
   stateSpace ps (nbe (fillTime A Q) ps)
 
 -- ------------------------------------------------------------------ line protocol (α := Float)
@@ -265,7 +265,7 @@ def showIC (p : IC Float) : List Arg := [.v p.m0, .s p.T0, .s p.nb0, .s p.P, .s 
 def showQuestions (qs : List (String × List Float)) : List Arg :=
   qs.foldr (fun q acc => .t q.1 :: .v q.2 :: acc) []
 
-def parseParts : List Arg → Option (List (Part Float))
+def parseParts : List Arg → Option (List (Prt Float))
   | [] => some []
   | .v m :: .s nb0 :: .s cp :: .s T :: rest =>
       (parseParts rest).map fun ps => { m := m, nb0 := nb0, cp := cp, T := T } :: ps
